@@ -4,7 +4,7 @@ import math
 
 from rv import bridge, gen, solvercheck as SC
 from rv.bridge import ALL
-from rv.core import Inconclusive
+from rv.core import Inconclusive, skippable
 from rv.refmodel import dtl
 
 INF = math.inf
@@ -57,6 +57,7 @@ def judge_mapping(B, obs):
     return []
 
 
+@skippable
 def check_input(ctx, Gn, Sn, lm, pairs, thl_pairs):
     case0 = {"kind": "lca", "G": Gn, "S": Sn, "leafmap": lm, "costs": cost(1, 1)}
     B = bridge.Built(case0)
@@ -143,6 +144,20 @@ def run(ctx, spec):
         check_input(ctx, Gn, Sn, lm, pairs, rng.sample(PAIRS, spec["nthl"]) if len(lm) >= 2 else [])
         if ctx.too_many():
             return
+    # large species trees (hundreds of species): mapping / validity only (the optimum oracle is cubic in the species)
+    from rv.refmodel import trees as RT
+
+    for _ in range(spec.get("nbig", 1)):
+        ns = rng.choice([260, 330, 420, 600])
+        no = rng.randint(20, 50)
+        import sys
+
+        sys.setrecursionlimit(20000)
+        Sn = RT.random_tree_shape(rng, [f"s{i}" for i in range(ns)], kind=rng.choice(["rand", "bal"]))
+        Gn = RT.random_tree_shape(rng, gen.object_labels(no), kind="rand")
+        lm = {g: f"s{rng.randrange(ns)}" for g in gen.object_labels(no)}
+        ctx.count("mon.big_species_trees")
+        check_input(ctx, Gn, Sn, lm, [], [])
     for _ in range(spec["nrand"]):
         Gn, Sn, lm = gen.random_input(rng, 10, 8, min_obj=5, min_sp=3)
         check_input(ctx, Gn, Sn, lm, rng.sample(PAIRS, 4), rng.sample(PAIRS, 2))
